@@ -8,11 +8,11 @@ class C02(ConnProp):
     monitor_text = ("a plugin ack is not covered by an earlier successful store commit holding that position "
                     "(or the stored position went backwards / became empty / a healthy teardown dropped an ack)")
     rule = ("corpus/C02/*.jsonl (hand-written shapes) and schedules over Read | Ack(k) | TimerFire | Flush | "
-            "ReleaseCommit ok/fail | FailNextSet | FailNextTx | SendFail n | HoldSend | ReleaseSend | Teardown (one case in "
+            "ReleaseCommit ok/fail | FailNextSet | FailNextTx | SendFail n | HoldSend | ReleaseSend | Stop | Teardown (half of the teardowns are preceded by reads beyond the last ack and a Stop; one case in "
             "eight embeds a scripted multi-letter shape) on 1-3 sources sharing one persister (gated or self-completing commits, bundle "
             "threshold 2-5 or off, retry bound 1-3, 15% of runs with a misbehaving engine), length <= 40, drawn from "
             "one splitmix64 state; thorough adds every schedule of length <= 6 over a 9-letter alphabet on one "
-            "source with gated commits, and over a 6-letter alphabet (Ack, Flush, HoldSend, ReleaseSend, Teardown, SendFail) with "
+            "source with gated commits, and over an 8-letter alphabet (Ack, Flush, HoldSend, ReleaseSend, Teardown, SendFail, Read, Stop) with "
             "self-completing commits (letters that certainly do nothing where they stand are skipped). distinct = distinct input "
             "JSON; non-trivial = at least one engine ack, one successful commit and one plugin ack in the log")
 
